@@ -839,9 +839,72 @@ def default_text(arg):
     return None if ast is None else print_ast(ast)
 
 
+def _canon_py(v):
+    """Python value -> canonical JSON-able form (integral floats as ints, tuples as lists)."""
+    if isinstance(v, bool) or v is None or isinstance(v, (int, str)):
+        return v
+    if isinstance(v, float):
+        return int(v) if v == v and v not in (float("inf"), float("-inf")) and v.is_integer() else repr(v)
+    if isinstance(v, (list, tuple)):
+        return [_canon_py(x) for x in v]
+    if isinstance(v, dict):
+        return {str(k): _canon_py(x) for k, x in v.items()}
+    return repr(v)
+
+
+def external_value(value, type_):
+    """The VALUE a default stands for, in external form, independent of how it was given: enum members by
+    name, IDs as strings, absent input-object members filled with the member's own default (what coercion does),
+    a single item for a list type wrapped.  Used to compare default values semantically."""
+    from graphql import (Undefined, is_enum_type, is_input_object_type, is_list_type, is_non_null_type)
+    if value is Undefined:
+        return "<undefined>"
+    if is_non_null_type(type_):
+        return external_value(value, type_.of_type)
+    if value is None:
+        return None
+    if is_list_type(type_):
+        if isinstance(value, (list, tuple)):
+            return [external_value(x, type_.of_type) for x in value]
+        return [external_value(value, type_.of_type)]
+    if is_enum_type(type_):
+        try:
+            return type_.serialize(value)
+        except Exception:  # noqa: BLE001
+            return "<enum " + repr(value) + ">"
+    if is_input_object_type(type_) and isinstance(value, dict):
+        out = {}
+        for fname, f in type_.fields.items():
+            if fname in value:
+                out[fname] = external_value(value[fname], f.type)
+            else:
+                d = coerced_default(f)
+                if d != "<undefined>":
+                    out[fname] = d
+        return out
+    if type_.name == "ID" and isinstance(value, (int, float)) and not isinstance(value, bool):
+        return str(_canon_py(value))
+    return _canon_py(value)
+
+
+def coerced_default(arg):
+    """Coerced default of an argument / input field in external canonical form ("<undefined>" when it has none)."""
+    try:
+        from graphql.utilities.coerce_input_value import coerce_default_value
+    except Exception:  # noqa: BLE001  (internal helper moved: the semantic comparison is skipped)
+        return "<unavailable>"
+    try:
+        return external_value(coerce_default_value(arg), arg.type)
+    except Exception as e:  # noqa: BLE001
+        return f"<raised {type(e).__name__}>"
+
+
 def dump_arg(name, a):
+    import json as _json
     return {"name": name, "type": str(a.type), "default": default_text(a), "desc": a.description,
-            "depr": a.deprecation_reason}
+            "depr": a.deprecation_reason,
+            # the default VALUE (a wrong literal for a Python default re-prints identically; the values differ)
+            "default_value": _json.dumps(coerced_default(a), sort_keys=True, default=repr)}
 
 
 def dump_type(t, builtin_too=False):
@@ -1298,6 +1361,44 @@ def representation_probes():
             "c": GraphQLArgument(GraphQLList(GraphQLInt), **kw(style, (1.0, 2.0)))})
         out.append((f"repr-probe:nested:{style}", GraphQLSchema(q, directives=list(specified_directives) + [d])))
     out += shared_default_probes()
+    out += member_probes()
+    return out
+
+
+def member_probes():
+    """Input-object default VALUES with explicit null members (with / without a member default, nested, in lists)
+    and values that omit members carrying their own default (nullable and non-null) - on arguments, input field
+    defaults and directive arguments."""
+    from graphql import (DirectiveLocation, GraphQLArgument, GraphQLDirective, GraphQLField, GraphQLInputField,
+                         GraphQLInputObjectType, GraphQLInt, GraphQLList, GraphQLNonNull, GraphQLObjectType,
+                         GraphQLSchema, GraphQLString, specified_directives)
+    from graphql.type import GraphQLDefaultInput
+    out = []
+    values = [("null-member-with-default", {"limit": None}),
+              ("null-member-without-default", {"name": None}),
+              ("null-members", {"limit": None, "name": None, "req": 7}),
+              ("nested-null-member", {"sub": {"limit": None, "sub": {"name": None}}}),
+              ("null-members-in-list", [{"limit": None}, {}, {"name": None, "limit": 3}]),
+              ("omits-defaulted-nonnull", {"name": "x"}),
+              ("omits-everything", {}),
+              ("nested-omits", {"sub": {}, "limit": 2}),
+              ("list-omits", [{}, {"req": 1}]),
+              ("null-sub", {"sub": None})]
+    for tag, v in values:
+        for style in ("value", "legacy"):
+            kw = (lambda x: {"default": GraphQLDefaultInput(value=x)}) if style == "value" \
+                else (lambda x: {"default_value": x})
+            inp = GraphQLInputObjectType("In", lambda: {
+                "limit": GraphQLInputField(GraphQLInt, **kw(10)),
+                "name": GraphQLInputField(GraphQLString),
+                "req": GraphQLInputField(GraphQLNonNull(GraphQLInt), **kw(5)),
+                "sub": GraphQLInputField(inp)})
+            ty = GraphQLList(inp) if isinstance(v, list) else inp
+            holder = GraphQLInputObjectType("Holder", {"h": GraphQLInputField(ty, **kw(v))})
+            d = GraphQLDirective("d", [DirectiveLocation.FIELD], args={"a": GraphQLArgument(ty, **kw(v))})
+            q = GraphQLObjectType("Query", {"f": GraphQLField(GraphQLInt, args={
+                "a": GraphQLArgument(ty, **kw(v)), "h": GraphQLArgument(holder)})})
+            out.append((f"member-probe:{tag}:{style}", GraphQLSchema(q, directives=list(specified_directives) + [d])))
     return out
 
 
